@@ -88,7 +88,7 @@ pub fn set_constructor(
         let mut set = set_obj.borrow_mut();
         if let ExoticObject::Set { ref mut entries } = set.exotic {
             for value in items {
-                entries.insert(JsMapKey(value));
+                entries.insert(JsMapKey::new(value));
             }
             let len = entries.len();
             set.set_property(size_key, JsValue::Number(len as f64));
@@ -116,7 +116,7 @@ pub fn set_add(
     let mut set = set_obj.borrow_mut();
 
     if let ExoticObject::Set { ref mut entries } = set.exotic {
-        entries.insert(JsMapKey(value));
+        entries.insert(JsMapKey::new(value));
         let len = entries.len();
         set.set_property(size_key, JsValue::Number(len as f64));
     }
